@@ -342,7 +342,14 @@ func (g *bGen) settle(c *bCase, h *bHostile) {
 			newVer = d.NewVersion & 0xff
 		}
 		script := ""
-		if ending >= minNoDust {
+		asDust := ending < minNoDust
+		// hostile at the threshold: a balance of exactly the threshold presented as
+		// dust, or one satoshi below presented as a re-created output
+		if (ending == minNoDust || ending == minNoDust-1) && rng.Intn(3) == 0 {
+			asDust = !asDust
+			c.Devs = append(c.Devs, "hostile-dust-boundary")
+		}
+		if !asDust {
 			d.EndingState = 0
 			script, _ = a.nextScript(bScriptVersion(uint8(newVer)), newExp)
 		} else {
